@@ -343,6 +343,44 @@ def build_model():
     return vf.build_extracted('c01', 'C01', 'c01_driver.ml')
 
 
+def run_model(ctx, exe, lines):
+    """Run the extracted model on every line; a line the runner does not answer in time (or on which it dies) is
+    reported for that input ('TIMEOUT' / 'CRASH') instead of failing the whole run.  Very long inputs run one per process."""
+    outs = [None] * len(lines)
+    small = [i for i, l in enumerate(lines) if len(l) <= 40000]
+    big = [i for i, l in enumerate(lines) if len(l) > 40000]
+
+    def single(i, timeout):
+        try:
+            rc, out, err = vf.run_lines(exe, [lines[i]], timeout=timeout)
+            return out[0] if rc == 0 and len(out) == 1 else 'CRASH'
+        except RuntimeError:
+            return 'TIMEOUT'
+    try:
+        for i, o in zip(small, vf.run_parallel(exe, [lines[i] for i in small], timeout=900)):
+            outs[i] = o
+    except RuntimeError:
+        # some shard failed: redo in chunks, then line by line inside a failing chunk
+        chunks = [small[j:j + 100] for j in range(0, len(small), 100)]
+
+        def chunk(ch):
+            try:
+                rc, out, err = vf.run_lines(exe, [lines[i] for i in ch], timeout=120)
+                if rc == 0 and len(out) == len(ch):
+                    return out
+            except RuntimeError:
+                pass
+            return [single(i, 30) for i in ch]
+        with ThreadPoolExecutor(vf.NCPU) as ex:
+            for ch, out in zip(chunks, ex.map(chunk, chunks)):
+                for i, o in zip(ch, out):
+                    outs[i] = o
+    with ThreadPoolExecutor(max(2, vf.NCPU // 2)) as ex:
+        for i, o in zip(big, ex.map(lambda i: single(i, 120), big)):
+            outs[i] = o
+    return outs
+
+
 def correspondence(ctx, res, gen):
     """every evaluated input of every described class: IMPL unpack/pack/calcsize vs MODEL decode/encode/sizeof"""
     model = build_model()
@@ -356,12 +394,16 @@ def correspondence(ctx, res, gen):
             lines.append('D %d %s' % (d['index'], c['hex'] or '-')); meta.append((key, c, True))
         for f in r['fails']:
             lines.append('D %d %s' % (d['index'], f['hex'] or '-')); meta.append((key, f, False))
-    outs = vf.run_parallel(model, lines)
-    nbad = 0
+    outs = run_model(ctx, model, lines)
+    nbad, late = 0, []
     for (key, c, parsed), ln, out in zip(meta, lines, outs):
         d = descs[key.split('[')[0]]
         ctx.count('correspondence:' + ('parsed' if parsed else 'rejected'))
         case = {'key': key, 'hex': c['hex'], 'model': out[:600]}
+        if out in ('TIMEOUT', 'CRASH'):
+            ctx.count('correspondence:model-' + out.lower())
+            late.append('%s (%d bytes): %s' % (key, len(c['hex']) // 2, out))
+            continue
         if not parsed:
             if out != 'FAIL':
                 # the struct module wants the whole fixed part present even when a count makes the parse fail earlier; both refuse
@@ -393,6 +435,8 @@ def correspondence(ctx, res, gen):
             nbad += 1
             ctx.broken_correspondence('%s: model and implementation differ on input %s: %s' % (key, c['hex'][:80], '; '.join(diffs)), dict(case, diffs=diffs))
     ctx.coverage['correspondence_mismatches'] = nbad
+    if late:
+        ctx.notes.append('inputs the extracted model did not answer within the per-input limit (law evaluation on the implementation still covers them): ' + '; '.join(late[:20]))
     return nbad
 
 
